@@ -125,6 +125,7 @@ pub fn position_seeds_shim() -> (r: &'static [&'static [u8]]) { unimplemented!()
 //@ fn instructions/lock_position.rs handler -> r as=lock_position_handler tags=C18,C04
     requires constraints_LockPosition(old(ctx.accounts)),
     ensures
+        r is Ok ==> old(ctx.accounts).position.skey() == crate::anchor_shim::pda_of(seq![crate::anchor_shim::Seed::Lit(0x706f736974696f6eint), crate::anchor_shim::Seed::Key(old(ctx.accounts).position_mint.skey())]) && old(ctx.accounts).lock_config.skey() == crate::anchor_shim::pda_of(seq![crate::anchor_shim::Seed::Lit(0x6c6f636b5f636f6e666967int), crate::anchor_shim::Seed::Key(old(ctx.accounts).position.skey())]), //# C18
         r is Ok ==> old(ctx.accounts).position_token_account.data.mint == old(ctx.accounts).position.data.position_mint && old(ctx.accounts).position_token_account.data.amount == 1, //# C04
         r is Ok ==> old(ctx.accounts).position.data.whirlpool == old(ctx.accounts).whirlpool.skey() && old(ctx.accounts).position_mint.skey() == old(ctx.accounts).position.data.position_mint, //# C18
         r is Ok ==> authority_rule(old(ctx.accounts).position_token_account.data.owner, copt(old(ctx.accounts).position_token_account.data.delegate), old(ctx.accounts).position_token_account.data.delegated_amount,
